@@ -7,7 +7,6 @@ import (
 	"sort"
 	"strings"
 	"sync"
-	"sync/atomic"
 	"time"
 
 	"verifharness/internal/core"
@@ -92,9 +91,12 @@ func (p c05) RunUnit(idx int, tier string, seed int64, focus map[string]string, 
 	if err != nil {
 		return
 	}
-	var ctr uint64
+	// Yields / short sleeps injected at the library's call-outs. The decision must not
+	// synchronise the goroutines itself (an atomic counter shared by all of them orders
+	// their accesses for the race detector and hides every race whose two accesses do
+	// not overlap in real time): it is taken from the clock.
 	ws.CallOut = func(site string) {
-		n := atomic.AddUint64(&ctr, 1)
+		n := time.Now().UnixNano() >> 6
 		switch {
 		case n%211 == 0:
 			time.Sleep(20 * time.Microsecond)
@@ -109,6 +111,12 @@ func (p c05) RunUnit(idx int, tier string, seed int64, focus map[string]string, 
 	for _, path := range ws.Order {
 		for _, f := range env.SortedFiles(path) {
 			qs = append(qs, queryList(env, State{Path: path, File: f}, rnd, 24, -1)...)
+		}
+	}
+	var heavy []int
+	for i, q := range qs {
+		if !q.Kind.Positional() {
+			heavy = append(heavy, i)
 		}
 	}
 	// sequential table first
@@ -144,6 +152,10 @@ func (p c05) RunUnit(idx int, tier string, seed int64, focus map[string]string, 
 			r := rand.New(rand.NewSource(seeds[g]))
 			for i := 0; i < cfg.OpsPerG; i++ {
 				qi := r.Intn(len(qs))
+				// whole-file / whole-path queries touch the most shared state: a third of the load
+				if len(heavy) > 0 && r.Intn(3) == 0 {
+					qi = heavy[r.Intn(len(heavy))]
+				}
 				q := qs[qi]
 				t0 := int64(time.Since(start))
 				res := env.Run(q)
@@ -163,7 +175,6 @@ func (p c05) RunUnit(idx int, tier string, seed int64, focus map[string]string, 
 	}
 	rep.Eval(int64(len(all)))
 	rep.Count("goroutines", int64(cfg.Goroutines))
-	rep.Count("callouts_with_injected_yield", int64(atomic.LoadUint64(&ctr)))
 	for _, ms := range mismatches {
 		for _, m := range ms {
 			rep.Violation(&runner.Witness{Sig: "CONCURRENT-RESULT-DIFFERS " + m.q.Kind.String(),
